@@ -58,6 +58,9 @@ CHECKS["C17"] = ("simsut", "exploration", "deterministic simulation: H2 log repl
 CHECKS["C18"] = ("simsut", "exploration", "deterministic simulation: H2 log replayed against a per-machine internal-timer model (UpdateTimer contract)",
    "TimerBegin must follow an UpdateTimer of that instant and is owed whenever the action set or changed the timer; TimerEnd exactly once at the model's expiry, never for a cancelled/superseded timer (same-instant ties tolerated).",
    "An UpdateTimer that changes nothing permits but does not require a TimerBegin.", "DESIGN.md §6 C18")
+CHECKS["C13"] = ("distsim", "exploration", "deterministic simulation with fault injection on the random-source seam: scripted extreme-word prefixes followed by a fair stream, against Dist::sample and the framework's consumers, with per-case crash/hang containment",
+   "Validated distributions of all 11 families (corner and random parameters) are sampled under adversarial prefixes of the random source, directly and as timeout/duration/limit/counter value inside a framework; a panic, hang (word budget / CPU limit) or out-of-range value is a violation. Two defects of the rand_distr dependency (D5 hang, D9 assertion) are matched narrowly as known findings.",
+   "'Real number' read as not-NaN (+inf is produced by validated parameters by construction); D5's trigger generated at a reduced rate.", "DESIGN.md §6 C13, §8")
 NOT_YET = {}
 NA = {
  "C12": "pure predicate over one machine value: no history, clock, random draw, interleaving or stored-byte fault takes part in deciding whether validation accepts a value; deciding it is input generation (property-based testing), not deterministic simulation (DESIGN.md §7)",
